@@ -272,6 +272,7 @@ func c19CheckModule(ctx py.Context, real *py.Module, want *c19RefMod) {
 
 //verif:property C19
 //verif:maxpaths 100000 2000000
+//verif:timeout 300 3000
 //verif:runinit github.com/go-python/gpython/py.init@type.go:1 github.com/go-python/gpython/py.init@exception.go:1 github.com/go-python/gpython/vm.init#1 github.com/go-python/gpython/vm.init#2 github.com/go-python/gpython/stdlib/builtin.init#1 github.com/go-python/gpython/compile.init@compile.go:1
 //verif:expect ran
 func VerifC19ImportGraph() {
